@@ -635,12 +635,18 @@ void eval_pending(World &W, const GPending &pd)
 			return;
 		if (lib_status(pd.expect) < 0)
 			return; // removed meanwhile
-		bool started = lib_status(pd.expect) != RTR_MGR_CLOSED;
-		GInfo *e = ginfo_of(W, pd.expect);
-		if (e)
-			for (int si : e->socks)
-				if (W.socks[(size_t)si].thread_id != 0)
-					started = true;
+		auto is_started = [&](int pref) {
+			if (pref < 0 || lib_status(pref) < 0)
+				return false;
+			bool st = lib_status(pref) != RTR_MGR_CLOSED;
+			GInfo *e = ginfo_of(W, pref);
+			if (e)
+				for (int si : e->socks)
+					if (W.socks[(size_t)si].thread_id != 0)
+						st = true;
+			return st;
+		};
+		bool started = is_started(pd.expect) || is_started(pd.expect2);
 		if (!started)
 			W.ctx.viol("C15", "next-group-not-started", "C15:failover:best-closed-group-not-started",
 				   "group %d entered ERROR while no group was ESTABLISHED, but the most preferred closed group %d was not started", pd.pref, pd.expect);
@@ -726,10 +732,22 @@ void group_oracle_on_status(World &W, const struct rtr_mgr_group *group, int sta
 		for (auto &o : L.v)
 			if (o.first != g->pref && o.second == RTR_MGR_CLOSED && (best < 0 || o.first < best))
 				best = o.first;
+		// the manager may report ERROR before or after it has started the successor: "still closed" is also read from
+		// what has been reported so far (a group it has just started has not reported anything yet)
+		int best2 = -1;
+		for (auto &o : L.v) {
+			GInfo *og = ginfo_of(W, o.first);
+			bool closed = og ? og->status == RTR_MGR_CLOSED : true; // (a group that is being added right now has reported nothing)
+			if (o.first != g->pref && closed && (best2 < 0 || o.first < best2))
+				best2 = o.first;
+		}
 		// only a real socket error triggers the start (not CONNECTING reports of a group already in ERROR)
 		int st = (int)W.socks[(size_t)si].state;
-		if (best >= 0 && (st == RTR_ERROR_FATAL || st == RTR_ERROR_TRANSPORT || st == RTR_ERROR_NO_DATA_AVAIL))
-			W.gpend.push_back({2, sim_self(), si, g->pref, best});
+		if ((best >= 0 || best2 >= 0) && (st == RTR_ERROR_FATAL || st == RTR_ERROR_TRANSPORT || st == RTR_ERROR_NO_DATA_AVAIL)) {
+			GPending pd{2, sim_self(), si, g->pref, best >= 0 ? best : best2};
+			pd.expect2 = best2;
+			W.gpend.push_back(pd);
+		}
 	}
 }
 
